@@ -9,6 +9,8 @@
 (*   Ask s                      SIGINT / SIGTERM sent, or stdin closed (STDIN)    *)
 (*   Open / Close               a TCP connection to one of its listeners was      *)
 (*        opened (a handler is now active) / closed                               *)
+(*   Greet listeners answered   a SOCKS5 greeting was sent to every announced     *)
+(*        client listener; how many answered it                                    *)
 (*   Alive / Exited             what the process did within the settle time       *)
 EXTENDS PtProcess
 VARIABLE l
@@ -42,7 +44,11 @@ TExited == Is("Exited") /\ l' = l + 1 /\ MustExit /\ UNCHANGED <<env, phase, out
 \* a flood of connections under a small descriptor limit came and went; then one more connection is attempted
 TFlood == Is("Flood") /\ l' = l + 1 /\ accepting' = (accepting /\ AcceptLoopSurvives) /\ UNCHANGED <<env, phase, out, conns, asked, ints, nenv>>
 TProbe == Is("Probe") /\ l' = l + 1 /\ Trace[l].accepted = accepting /\ UNCHANGED <<env, phase, out, conns, asked, ints, accepting, nenv>>
-TNext == TFlood \/ TProbe \/ TReset \/ TLaunch \/ TLines \/ TAsk \/ TOpen \/ TClose \/ TAlive \/ TExited
+\* every announced client listener is SERVED, not merely bound (the kernel completes connects to a listener nobody accepts on):
+\* a SOCKS5 greeting is answered by each of them
+TGreet == Is("Greet") /\ l' = l + 1 /\ (accepting => Trace[l].answered = Trace[l].listeners)
+          /\ UNCHANGED <<env, phase, out, conns, asked, ints, accepting, nenv>>
+TNext == TGreet \/ TFlood \/ TProbe \/ TReset \/ TLaunch \/ TLines \/ TAsk \/ TOpen \/ TClose \/ TAlive \/ TExited
 TraceSpec == TInit /\ [][TNext]_tvars
 HW == TLCSet(1, IF l - 1 > TLCGet(1) THEN l - 1 ELSE TLCGet(1))
 TraceAccepted == IF TLCGet(1) = Len(Trace) THEN TRUE ELSE PrintT(<<"REJECTED_AFTER", TLCGet(1)>>) /\ FALSE
